@@ -60,18 +60,18 @@ type HEvent struct {
 }
 
 type Result struct {
-	Sc        *Scenario
-	Events    []HEvent
-	Reqs      []sarama.VerifSimGroupReq
-	NewErr    string
-	Hang      string
-	Panic     string
-	Errors    []string
-	Logs      map[int32]int
-	StoreEnd  map[int32]int64
-	Life      []string // lifecycle hook events (C12 only)
-	LifePanic []string // panics recovered in sarama's own goroutines (C12 only)
-	GrownAtSeq int     // coordinator sequence number at which the topic grew (0 = it did not)
+	Sc         *Scenario
+	Events     []HEvent
+	Reqs       []sarama.VerifSimGroupReq
+	NewErr     string
+	Hang       string
+	Panic      string
+	Errors     []string
+	Logs       map[int32]int
+	StoreEnd   map[int32]int64
+	Life       []string // lifecycle hook events (C12 only)
+	LifePanic  []string // panics recovered in sarama's own goroutines (C12 only)
+	GrownAtSeq int      // coordinator sequence number at which the topic grew (0 = it did not)
 }
 
 var codes = []sarama.KError{sarama.ErrRebalanceInProgress, sarama.ErrUnknownMemberId, sarama.ErrIllegalGeneration,
